@@ -44,7 +44,10 @@ Encl(m, i, L) ==
 IntValue(m) == Encl(m, 1, 1).nl            \* for IsIntM(m)
 
 (* ---- integral target ---- *)
-RepInt(t, m) == IsIntM(m) /\ Le(IntValue(m), MaxOf(t))
+\* a lower bound of log2(m) from the factors alone, so that 2^16384 need not be multiplied out to see that no integer type holds it
+RECURSIVE Log2Low(_,_)
+Log2Low(m, i) == IF i > Len(m) THEN 0 ELSE m[i].n * (BitLen(BaseOf(m[i])) - 1) + Log2Low(m, i + 1)
+RepInt(t, m) == IsIntM(m) /\ Log2Low(m, 1) < 70 /\ Le(IntValue(m), MaxOf(t))
 
 (* ---- floating target: compare m^L with (c * 2^ce)^L, c > 0 BigInt ---- *)
 \* sign of  num/den - (c*2^ce)^L  where num, den, c > 0
